@@ -1070,6 +1070,11 @@ impl MockInner {
 		match self.0 {
 			"ok" => Ok(ok),
 			"epipe" => Err(io::Error::from_raw_os_error(libc::EPIPE)),
+			"other-eagain" => Err(io::Error::from_raw_os_error(libc::EAGAIN)),
+			"other-eintr" => Err(io::Error::from_raw_os_error(libc::EINTR)),
+			"other-eio" => Err(io::Error::from_raw_os_error(libc::EIO)),
+			"other-etimedout" => Err(io::Error::from_raw_os_error(libc::ETIMEDOUT)),
+			"other-writezero" => Err(io::Error::new(io::ErrorKind::WriteZero, "failed to write whole buffer")),
 			_ => Err(io::Error::from_raw_os_error(libc::ENOSPC)),
 		}
 	}
@@ -1264,6 +1269,15 @@ pub fn pipecheck_table(out: &mut Out) {
 		for i in PC_INNER {
 			let a = pipecheck_answer(m, i);
 			out.case("pipecheck", &format!("{m} {i}"), &a, true);
+		}
+	}
+	// Every other error kind must pass through unchanged too (the model knows
+	// them all as `other`): a full non-blocking pipe (EAGAIN), an interrupted
+	// call, an I/O error, a timeout, a zero-length write.
+	for m in PC_METHODS {
+		for i in ["other-eagain", "other-eintr", "other-eio", "other-etimedout", "other-writezero"] {
+			let a = pipecheck_answer(m, i);
+			out.case("pipecheck", &format!("{m} other"), &a, true);
 		}
 	}
 	out.count("exhaustive.pipecheck.methods_x_results");
